@@ -308,6 +308,16 @@ class Run:
             for op in item["inner"]:
                 sim.count("fault.inner." + op["op"])
         data = rep.finalize()
+        if item.get("cut"):
+            # truncate at a TLV boundary of the final message
+            offs = snmp.node_offsets(rep.tree)
+            st, cs, en = offs[item["cut"]["node"] % len(offs)]
+            pos = {"start": st, "content": cs, "end": en, "mid": (cs + en) // 2}[item["cut"]["where"]]
+            if pos < len(data):
+                data = data[:pos]
+                rep.label["wf"] = False
+                rep.label["why"] = "truncated"
+                sim.count("fault.cut-at-tlv")
         if item.get("outer"):
             data = faults.apply_outer(data, item["outer"], rep.label)
             for op in item["outer"]:
